@@ -66,6 +66,9 @@ enum Op {
     ForeignCheckpoint { msg: u64 },
     Schedule { stride: u64, max_new: u32 },
     Restart,
+    /// `n` checkpoint frames for message `msg` written straight into the truth log (more than the 10 000 frames / 8 MiB the
+    /// checkpoint sidecar scan reads); `cumulative` = supported kind or not; caches dropped, store reopened
+    BulkCheckpoints { n: u64, msg: u64, cumulative: bool },
 }
 
 #[derive(Clone, Debug, Serialize, Deserialize, PartialEq)]
@@ -93,6 +96,9 @@ struct Case {
     /// all anchors on one opened store)
     #[serde(default)]
     sweep: u8,
+    /// more than 10 000 checkpoint frames: the first anchor gets a model case although the thread is long
+    #[serde(default)]
+    flood: bool,
 }
 
 // ---------------------------------------------------------------- store plumbing
@@ -313,6 +319,53 @@ fn apply_ops(o: &mut Opened, root: &Path, h: &mut Hist, ops: &[Op]) {
                         },
                     };
                     let r = o.log.append(&ev).map_err(|e| e.to_string());
+                    let _ = std::fs::remove_dir_all(streams_dir(root));
+                    *o = open(root);
+                    r
+                }
+            }
+            Op::BulkCheckpoints { n, msg, cumulative } => {
+                let truth = replay_truth(root, &id);
+                if h.messages.is_empty() || truth.is_empty() {
+                    Ok(())
+                } else {
+                    let m = h.messages[(*msg as usize) % h.messages.len()].clone();
+                    let to_seq = truth.iter().find(|e| e.id == m).map(|e| e.seq).unwrap_or(0);
+                    let mut seq = truth.last().unwrap().seq;
+                    // a supported checkpoint's summary artifact is read by the compiler: reuse one that exists
+                    let real_artifact = truth.iter().rev().find_map(|e| match &e.kind {
+                        EventKind::ContinuityCompactionCheckpointCreated { summary_kind, summary_artifact_id, .. } if summary_kind == CUMULATIVE => Some(summary_artifact_id.clone()),
+                        _ => None,
+                    });
+                    let mut r = Ok(());
+                    for _ in 0..*n {
+                        seq += 1;
+                        let ev = Event {
+                            id: uuid::Uuid::new_v4().to_string(),
+                            session_id: id.clone(),
+                            timestamp_ms: 1,
+                            seq,
+                            kind: EventKind::ContinuityCompactionCheckpointCreated {
+                                checkpoint_id: uuid::Uuid::new_v4().to_string(),
+                                cut_rule_id: "manual_v1".into(),
+                                summary_kind: if *cumulative { CUMULATIVE.into() } else { "delta_v0".into() },
+                                summary_artifact_id: match (&real_artifact, *cumulative) {
+                                    (Some(a), true) => a.clone(),
+                                    _ => format!("bulk-artifact-{seq}"),
+                                },
+                                from_seq: 0,
+                                from_message_id: None,
+                                to_seq,
+                                to_message_id: Some(m.clone()),
+                                actor_id: "user".into(),
+                                origin: "cli".into(),
+                            },
+                        };
+                        if let Err(e) = o.log.append(&ev) {
+                            r = Err(e.to_string());
+                            break;
+                        }
+                    }
                     let _ = std::fs::remove_dir_all(streams_dir(root));
                     *o = open(root);
                     r
@@ -779,7 +832,7 @@ fn gen_case(r: &mut Rng, i: u64) -> Case {
             });
         }
     }
-    Case { ops, anchors, later: gen_later(r, nmsg), faults, big: false, race, sweep: 0 }
+    Case { ops, anchors, later: gen_later(r, nmsg), faults, big: false, race, sweep: 0, flood: false }
 }
 /// threads whose mr sidecar is larger than every tail window (8 MiB): anchors far from the tail go
 /// through the seekable window, anchors near the tail through several doublings of the tail scan
@@ -793,7 +846,7 @@ fn big_cases() -> Vec<Case> {
         }
     }
     ops.push(Op::SideFx);
-    let a = Case { ops: ops.clone(), anchors: vec![Anchor::Msg(0), Anchor::Msg(1), Anchor::Msg(2), Anchor::Msg(6), Anchor::Last], later: vec![Op::Checkpoint { msg: 0 }, Op::SideFx], faults: vec![(Target::Mr, FaultKind::Delete), (Target::MrMsgIdx, FaultKind::Delete), (Target::Seek, FaultKind::Garbage)], big: true, race: vec![], sweep: 0 };
+    let a = Case { ops: ops.clone(), anchors: vec![Anchor::Msg(0), Anchor::Msg(1), Anchor::Msg(2), Anchor::Msg(6), Anchor::Last], later: vec![Op::Checkpoint { msg: 0 }, Op::SideFx], faults: vec![(Target::Mr, FaultKind::Delete), (Target::MrMsgIdx, FaultKind::Delete), (Target::Seek, FaultKind::Garbage)], big: true, race: vec![], sweep: 0, flood: false };
     // 20 messages of 300 KiB: the first 256 KiB window holds no message, 16 messages need ~5 MiB
     let mut ops2 = vec![];
     for k in 0..22 {
@@ -802,7 +855,7 @@ fn big_cases() -> Vec<Case> {
             ops2.push(Op::SideFx);
         }
     }
-    let b = Case { ops: ops2, anchors: vec![Anchor::Last, Anchor::Msg(20), Anchor::Msg(3), Anchor::Msg(0)], later: vec![Op::SideFx, Op::Checkpoint { msg: 1 }], faults: vec![(Target::Full, FaultKind::Delete), (Target::MrSeek, FaultKind::Delete)], big: true, race: vec![], sweep: 0 };
+    let b = Case { ops: ops2, anchors: vec![Anchor::Last, Anchor::Msg(20), Anchor::Msg(3), Anchor::Msg(0)], later: vec![Op::SideFx, Op::Checkpoint { msg: 1 }], faults: vec![(Target::Full, FaultKind::Delete), (Target::MrSeek, FaultKind::Delete)], big: true, race: vec![], sweep: 0, flood: false };
     vec![a, b]
 }
 /// Window-boundary sweeps.  The mr tail scan reads 256 KiB, then doubles (512 KiB, 1 MiB, … 8 MiB) until the tail is the
@@ -844,7 +897,7 @@ fn sweep_case(r: &mut Rng, w: u64, tenths: (u64, u64), per_window: (u64, u64), l
         ops.push(Op::SideFx);
     }
     let anchors = (0..nmsg).map(Anchor::Msg).collect();
-    Case { ops, anchors, later: vec![Op::SideFx, Op::Msg { size: 5 }], faults: vec![], big: true, race: vec![], sweep: if light { 2 } else { 1 } }
+    Case { ops, anchors, later: vec![Op::SideFx, Op::Msg { size: 5 }], faults: vec![], big: true, race: vec![], sweep: if light { 2 } else { 1 }, flood: false }
 }
 fn sweep_cases(r: &mut Rng, thorough: bool) -> Vec<Case> {
     const K: u64 = 1024;
@@ -872,12 +925,41 @@ fn sweep_cases(r: &mut Rng, thorough: bool) -> Vec<Case> {
     v.push(sweep_case(r, 8192 * K, (11, 14), (17, 22), true));
     v
 }
+/// More checkpoint frames than the checkpoint-sidecar scan reads (10 000 frames / 8 MiB): the one visible checkpoint is the
+/// OLDEST frame, behind the flood (all of the flood has a to_seq beyond the cut of the early anchors).
+fn flood_cases() -> Vec<Case> {
+    let n = 10_050;
+    // cumulative flood: the hierarchy comes from the index (no bound); the early anchors see only the old checkpoint
+    let a = Case {
+        ops: vec![Op::Msg { size: 5 }, Op::Msg { size: 5 }, Op::Checkpoint { msg: 0 }, Op::Msg { size: 5 }, Op::Msg { size: 5 }, Op::Msg { size: 5 }, Op::BulkCheckpoints { n, msg: 3, cumulative: true }, Op::Msg { size: 5 }],
+        anchors: vec![Anchor::Msg(1), Anchor::Msg(3), Anchor::Last],
+        later: vec![Op::SideFx],
+        faults: vec![(Target::CompIdx, FaultKind::Delete)],
+        big: true,
+        race: vec![],
+        sweep: 0,
+        flood: true,
+    };
+    // unsupported-kind flood: hierarchy empty, the `latest` lookup must not stop at the newest 10 000 frames: the old
+    // unsupported checkpoint at or before the cut decides cause and reset
+    let b = Case {
+        ops: vec![Op::Msg { size: 5 }, Op::Msg { size: 5 }, Op::ForeignCheckpoint { msg: 0 }, Op::Msg { size: 5 }, Op::Msg { size: 5 }, Op::Msg { size: 5 }, Op::BulkCheckpoints { n, msg: 3, cumulative: false }, Op::Msg { size: 5 }],
+        anchors: vec![Anchor::Msg(1), Anchor::Msg(0), Anchor::Last],
+        later: vec![Op::SideFx],
+        faults: vec![(Target::Comp, FaultKind::Delete)],
+        big: true,
+        race: vec![],
+        sweep: 0,
+        flood: true,
+    };
+    vec![a, b]
+}
 fn corpus_cases() -> Vec<Case> {
     vec![
         // S9: a checkpoint frame appended after the cut, to_seq at or before it
-        Case { ops: vec![Op::Msg { size: 5 }, Op::Msg { size: 5 }, Op::Msg { size: 5 }], anchors: vec![Anchor::Msg(1), Anchor::Msg(0)], later: vec![Op::Checkpoint { msg: 0 }], faults: vec![], big: false, race: vec![], sweep: 0 },
+        Case { ops: vec![Op::Msg { size: 5 }, Op::Msg { size: 5 }, Op::Msg { size: 5 }], anchors: vec![Anchor::Msg(1), Anchor::Msg(0)], later: vec![Op::Checkpoint { msg: 0 }], faults: vec![], big: false, race: vec![], sweep: 0, flood: false },
         // exactly `limit` and limit+1 messages, reply on the oldest one
-        Case { ops: std::iter::once(Op::Msg { size: 5 }).chain([Op::Run { msg: 0, text: 2, snap: 0 }, Op::RunEnded { run: 0 }]).chain((0..16).map(|_| Op::Msg { size: 5 })).collect(), anchors: vec![Anchor::Last, Anchor::Msg(15), Anchor::Msg(16), Anchor::Msg(0)], later: vec![Op::Msg { size: 5 }], faults: vec![(Target::Full, FaultKind::Delete)], big: false, race: vec![], sweep: 0 },
+        Case { ops: std::iter::once(Op::Msg { size: 5 }).chain([Op::Run { msg: 0, text: 2, snap: 0 }, Op::RunEnded { run: 0 }]).chain((0..16).map(|_| Op::Msg { size: 5 })).collect(), anchors: vec![Anchor::Last, Anchor::Msg(15), Anchor::Msg(16), Anchor::Msg(0)], later: vec![Op::Msg { size: 5 }], faults: vec![(Target::Full, FaultKind::Delete)], big: false, race: vec![], sweep: 0, flood: false },
         // checkpoint at the anchor, to_seq ties (the later frame wins), halving with thresholds 0 / 1
         Case {
             ops: vec![Op::Msg { size: 5 }, Op::Msg { size: 5 }, Op::Checkpoint { msg: 0 }, Op::Checkpoint { msg: 0 }, Op::Msg { size: 5 }, Op::Checkpoint { msg: 1 }, Op::Msg { size: 5 }, Op::Msg { size: 5 }, Op::Checkpoint { msg: 3 }, Op::Checkpoint { msg: 4 }, Op::SideFx],
@@ -887,11 +969,12 @@ fn corpus_cases() -> Vec<Case> {
             big: false,
             race: vec![Op::SideFx, Op::Msg { size: 5 }, Op::RunEnded { run: 0 }],
             sweep: 0,
+            flood: false,
         },
         // only unsupported checkpoint kinds visible (reset + cause), then a cumulative one with a smaller to_seq
-        Case { ops: vec![Op::Msg { size: 5 }, Op::Msg { size: 5 }, Op::ForeignCheckpoint { msg: 1 }, Op::Msg { size: 5 }, Op::Checkpoint { msg: 0 }, Op::Msg { size: 5 }, Op::ForeignCheckpoint { msg: 2 }], anchors: vec![Anchor::Msg(1), Anchor::Msg(2), Anchor::Last], later: vec![Op::SideFx], faults: vec![(Target::Comp, FaultKind::Delete)], big: false, race: vec![], sweep: 0 },
+        Case { ops: vec![Op::Msg { size: 5 }, Op::Msg { size: 5 }, Op::ForeignCheckpoint { msg: 1 }, Op::Msg { size: 5 }, Op::Checkpoint { msg: 0 }, Op::Msg { size: 5 }, Op::ForeignCheckpoint { msg: 2 }], anchors: vec![Anchor::Msg(1), Anchor::Msg(2), Anchor::Last], later: vec![Op::SideFx], faults: vec![(Target::Comp, FaultKind::Delete)], big: false, race: vec![], sweep: 0, flood: false },
         // a reply that arrives after the cut must not be in the bundle; two runs for one message
-        Case { ops: vec![Op::Msg { size: 5 }, Op::Run { msg: 0, text: 2, snap: 0 }, Op::Run { msg: 0, text: 3, snap: 2 }, Op::RunEnded { run: 0 }, Op::Msg { size: 5 }, Op::RunEnded { run: 1 }, Op::SideFx], anchors: vec![Anchor::Msg(0), Anchor::Last], later: vec![Op::RunEnded { run: 0 }], faults: vec![(Target::Mr, FaultKind::Delete)], big: false, race: vec![], sweep: 0 },
+        Case { ops: vec![Op::Msg { size: 5 }, Op::Run { msg: 0, text: 2, snap: 0 }, Op::Run { msg: 0, text: 3, snap: 2 }, Op::RunEnded { run: 0 }, Op::Msg { size: 5 }, Op::RunEnded { run: 1 }, Op::SideFx], anchors: vec![Anchor::Msg(0), Anchor::Last], later: vec![Op::RunEnded { run: 0 }], faults: vec![(Target::Mr, FaultKind::Delete)], big: false, race: vec![], sweep: 0, flood: false },
     ]
 }
 
@@ -1098,7 +1181,8 @@ fn judge(case: &Case, out: &CaseOut, limit: usize, max_refs: usize, checks: &mut
         if got != c.spec {
             let class = s9_class(&out.abs, &out.runs, &c.anchor_id, &c.baseline, limit, max_refs, "bundle_differs_from_truth_recomputation");
             let show = |x: &Option<Value>| if case.big { x.as_ref().map(brief_view).unwrap_or("error".into()) } else { short(&x.as_ref().map(|x| x.to_string()).unwrap_or("error".into())) };
-            v.push((ai, class, format!("anchor {:?}: implementation => {}   recomputed from truth => {}", c.anchor, show(&got), show(&c.spec))));
+            let err = if let Out::Err(e) = &c.baseline { format!(" ({})", short(e)) } else { String::new() };
+            v.push((ai, class, format!("anchor {:?}: implementation => {}{err}   recomputed from truth => {}", c.anchor, show(&got), show(&c.spec))));
         }
         // (c) frames appended after the cut
         let lb = &out.later_baselines[ai];
@@ -1386,6 +1470,7 @@ fn main() {
         cases.extend(big_cases());
         let mut rs = Rng::new(a.seed ^ 0x5EE9);
         cases.extend(sweep_cases(&mut rs, a.thorough()));
+        cases.extend(flood_cases());
         let n = if a.thorough() { 1500 } else { 120 };
         let mut r = Rng::new(a.seed);
         for i in 0..n {
@@ -1398,14 +1483,21 @@ fn main() {
                 let ops = gen_ops(&mut r, n, &[300_000, 1 << 20, 5, 300_000], false);
                 let nmsg = ops.iter().filter(|o| matches!(o, Op::Msg { .. })).count() as u64;
                 let anchors = vec![Anchor::Msg(0), Anchor::Msg(1), Anchor::Msg(r.below(nmsg.max(1))), Anchor::Last];
-                cases.push(Case { ops, anchors, later: gen_later(&mut r, nmsg), faults: vec![(*r.pick(&TARGETS), FaultKind::Delete)], big: true, race: vec![], sweep: 0 });
+                cases.push(Case { ops, anchors, later: gen_later(&mut r, nmsg), faults: vec![(*r.pick(&TARGETS), FaultKind::Delete)], big: true, race: vec![], sweep: 0, flood: false });
             }
             // appends racing with a compile that goes through the mr seek window (thread larger than every tail scan)
             {
                 let mut ops = vec![Op::Msg { size: 5 }, Op::Run { msg: 0, text: 3, snap: 0 }, Op::RunEnded { run: 0 }, Op::SideFx];
                 ops.extend((0..10).map(|_| Op::Msg { size: 1 << 20 }));
                 ops.push(Op::Run { msg: 10, text: 2, snap: 0 });
-                cases.push(Case { ops, anchors: vec![Anchor::Last], later: vec![], faults: vec![], big: true, race: vec![Op::RunEnded { run: 1 }, Op::Checkpoint { msg: 3 }, Op::Msg { size: 200 }], sweep: 0 });
+                cases.push(Case { ops, anchors: vec![Anchor::Last], later: vec![], faults: vec![], big: true, race: vec![Op::RunEnded { run: 1 }, Op::Checkpoint { msg: 3 }, Op::Msg { size: 200 }], sweep: 0, flood: false });
+            }
+            // S26: more than 64 MiB inside the last 16 messages: the mr seek window reaches the bound of its back-scan before it
+            // holds `limit` messages (18 messages of 5 MiB; only through the store API: the server refuses bodies over 2 MiB)
+            {
+                let mut ops = vec![Op::Msg { size: 5 }, Op::Msg { size: 5 }];
+                ops.extend((0..18).map(|_| Op::Msg { size: 5 << 20 }));
+                cases.push(Case { ops, anchors: vec![Anchor::Msg(18), Anchor::Msg(10)], later: vec![Op::SideFx], faults: vec![], big: true, race: vec![], sweep: 2, flood: false });
             }
             // every single fault on a rich fixed history
             let base = corpus_cases().remove(2);
@@ -1424,7 +1516,7 @@ fn main() {
     for (ci, case) in cases.iter().enumerate() {
         let t_case = std::time::Instant::now();
         let out = run_case(case, limit, max_refs);
-        *wall_ms.entry(if case.sweep != 0 { "sweep" } else if case.big { "big" } else { "other" }).or_insert(0u128) += t_case.elapsed().as_millis();
+        *wall_ms.entry(if case.sweep != 0 { "sweep" } else if case.flood { "flood" } else if case.big { "big" } else { "other" }).or_insert(0u128) += t_case.elapsed().as_millis();
         res.evaluations += 1;
         res.bump_by("op_errors", out.op_errors);
         let nck = out.abs.truth.iter().filter(|e| matches!(e.kind, EventKind::ContinuityCompactionCheckpointCreated { .. })).count();
@@ -1455,9 +1547,9 @@ fn main() {
                 res.bump(&format!("cause:{}", decision["reason"]["cause"].as_str().unwrap_or("?")));
             }
             res.bump(&format!("anchor:{}", match (&c.anchor, c.cut_is_head) { (Anchor::Unknown, _) | (Anchor::NonMessage, _) => "invalid", (_, true) => "cut=head", _ => "cut<head" }));
-            if !a.oracle_only() && out.abs_later.truth.len() <= 600 {
+            if !a.oracle_only() && (out.abs_later.truth.len() <= 600 || (case.flood && ai == 0)) {
                 for (abs, runs, o, which) in [(&out.abs, &out.runs, &c.baseline, "first"), (&out.abs_later, &out.runs_later, &out.later_baselines[ai], "after_later")] {
-                    if case.sweep != 0 && which == "after_later" {
+                    if (case.sweep != 0 || case.flood) && which == "after_later" {
                         continue; // the oracle judges it; one model case per anchor is enough for a sweep
                     }
                     let term = format!(
